@@ -10,7 +10,7 @@
    NOT proved here (partial): the accuracy bound of the approximation (3 % / 0.3 %) — validated numerically only. *)
 From Coq Require Import ZArith List Bool.
 From SV Require Import lib.Scalar lib.BigSum lib.LoopIR lib.NdArray lib.Coord gen.Gen_interp model.Rearrange model.Block model.Interp
-  model.Fourier model.Nufft proofs.Interp proofs.Nufft proofs.NufftPeriodic.
+  model.Fourier model.Nufft proofs.Interp proofs.Fourier1D proofs.FourierModel proofs.Nufft proofs.NufftFft proofs.NufftPeriodic.
 Import ListNotations.
 Local Open Scope Z_scope.
 
@@ -52,6 +52,23 @@ Proof.
              osh I G HIG cM HF HcM x y).
 Qed.
 Print Assumptions C06_nufft_adjoint_exact.
+
+(* the numpy.fft hypothesis of C06_nufft_adjoint_exact follows from the DFT-sum specification of numpy.fft (the oracle of
+   C05: tw n m = w_n^m with w_n a root of unity satisfying root_ok, inv n * n = 1), with tw := twf R w and
+   cM := cprod R s ax = the product over the transformed axes of their lengths (as ring elements nR n = sum_{k<n} 1) *)
+Theorem C06_fft_pair_from_the_dft_sum :
+  forall (R : StarRing) (w isc inv : Z -> R),
+    (forall n, 0 < n -> root_ok R n (w n)) -> (forall n, 0 < n -> mul (inv n) (nR n) = one) ->
+  forall s axes (x y : list Z -> R),
+    let ax := normalize_axes_sorted axes (Z.of_nat (length s)) in
+    Forall (fun n => 0 < n) s -> NoDup ax -> Forall (fun a => (a < length s)%nat) ax ->
+    inner s (snd (fftc (twf R w) isc inv false false s None axes x)) y =
+    mul (cprod R s ax) (inner s x (snd (fftc (twf R w) isc inv true false s None axes y))).
+Proof. exact fft_none_pair. Qed.
+Print Assumptions C06_fft_pair_from_the_dft_sum.
+Theorem C06_cprod_is : forall (R : StarRing) s a l,
+  cprod R s [] = one /\ cprod R s (a :: l) = mul (nR (nthd s a)) (cprod R s l).
+Proof. intros. split; reflexivity. Qed.
 
 (* the centred zero-pad (resize to os_shape) and the centred crop (resize back) are adjoint, any equal-rank shapes *)
 Theorem C06_resize_pair_adjoint : forall (R : StarRing) s1 s2 (x y : list Z -> R), length s1 = length s2 ->
